@@ -15,7 +15,7 @@ from ..report import Check
 from ..resolve import UNKNOWN, fold
 from ..solver import run as solve
 from .c09 import IterMachine
-from .common import Summaries, specialisations, write_policy
+from .common import Summaries, areas, specialisations, write_policy
 
 CONFIG_SINKS = {
     'utils:get_hash_cls': (0, 'hash_type'), 'utils:compute_hash_and_size': (1, 'hash_type'), 'utils:_compute_hash_for_file': (1, 'hash_type'),
@@ -135,6 +135,7 @@ def run(ctx, host=None):
 
     # ---------------------------------------------------------------- R1
     nloops = 0
+    tee_loops = []
     for f in prog.all_functions():
         if isinstance(f.node, ast.Lambda):
             continue
@@ -142,6 +143,7 @@ def run(ctx, host=None):
             reads = loop_reads(loop)
             if not reads:
                 continue
+            tee_loops.append(loop)
             for rd_st, var, rd_call in reads:
                 nloops += 1
                 where = f'{f.module.relpath}:{loop.lineno}'
@@ -240,6 +242,33 @@ def run(ctx, host=None):
                     else:
                         chk.bad(R1, f.qualname, f'{cobj}.flush()', 'the compressor is not flushed into the sink after the copy loop: the stored stream is truncated (last bytes missing)', where=where)
     chk.require(nloops >= 8, f'expected at least 8 chunked copy/hash loops, found {nloops}')
+    # sink-centric converse: whatever is written into a pack file or a sandbox (future loose) file is a chunk of one of the loops above, or the compressor's
+    # flush after such a loop -- never a whole buffer obtained some other way (getvalue(), an unbounded read, a slice of a cached object)
+    nw = 0
+    from .common import CallGraph, resolved_effect_sites
+    seen_w = set()
+    for owner, n, e in resolved_effect_sites(ctx, S, CallGraph(ctx, S), {'H_WRITE'}):
+        if True:
+            if True:
+                ar = areas(K, e[1][1]) if isinstance(e[1], tuple) and len(e[1]) > 1 else set()
+                if not (ar & {'packs', 'sandbox'}) or id(n) in seen_w:
+                    continue
+                seen_w.add(id(n))
+                f = next((ff for ff in prog.all_functions() if not isinstance(ff.node, ast.Lambda) and any(n is x for x in walk_local(ff.node))), owner)
+                nw += 1
+                inside = any(any(n is x for x in ast.walk(lp)) for lp in tee_loops)
+                arg = n.args[0] if n.args else None
+                is_flush = isinstance(arg, ast.Call) and isinstance(arg.func, ast.Attribute) and arg.func.attr == 'flush'
+                proxy = f.name == 'write' and isinstance(arg, ast.Name) and arg.id in f.params
+                if proxy:
+                    chk.ok(R1, f.qualname, norm(n)[:80], detail='write() of a wrapper class forwarding its own argument', nontrivial=False)
+                elif inside or is_flush:
+                    chk.ok(R1, f.qualname, norm(n)[:80], detail='chunk of a bounded-read copy loop' if inside else 'compressor flush after the loop', nontrivial=False)
+                else:
+                    chk.bad(R1, f.qualname, norm(n)[:90], 'bytes are written into a pack / sandbox file outside the chunked copy loops: they do not come from a bounded `read(n)` of the input stream at its '
+                            'current position (e.g. a whole in-memory buffer taken with getvalue(), which ignores how far the stream was already consumed), so what is stored can differ from what the '
+                            'stream delivers and from what the other write paths store for it', where=f'{f.module.relpath}:{n.lineno}')
+    chk.require(nw >= 4, f'expected at least 4 writes into pack / sandbox files, found {nw}')
 
     # ---------------------------------------------------------------- R2
     wd = prog.fn('container:Container._write_data_to_packfile')
@@ -292,6 +321,9 @@ def run(ctx, host=None):
     from .c09 import fresh_stream_handover, loose_add_delegation
     loose_add_delegation(ctx, chk, R2)
     fresh_stream_handover(ctx, chk, R2)
+    # a key is handed back without writing only for content that is in the index *now*: the known-keys set is rebuilt by every call (C09.R4's rule, claimed here too)
+    from .c09 import known_set_accumulation
+    known_set_accumulation(ctx, chk, R2)
     # direct path: one key per stream (IterMachine of C09.R4, reported here as C01.R2)
     q = 'container:Container.add_streamed_objects_to_pack'
     fnq = prog.fn(q)
